@@ -818,11 +818,16 @@ int main(int argc, char **argv)
         }
         usleep(5000);
     }
-    // re-run timed-out cases alone, once (at most two of them, concurrently, on the now idle machine);
-    // only a second expiry is a hang. Timed-out cases that are not re-run stay unaccounted (inconclusive
-    // unless a hang was confirmed).
+    // re-run timed-out cases alone, once (two at a time, on the now idle machine, with twice the time limit);
+    // only a second expiry is a hang. When the run was stopped early (a whole class of cases does not terminate)
+    // only the first two are re-run; the rest stay unaccounted (inconclusive unless a hang was confirmed). Otherwise
+    // every timed-out case is re-run: on a heavily loaded machine a handful of slow cases can expire in the pool
+    // (seen once: thorough C09 beside eight other checks, 3 expiries, 1 left unaccounted -> exit 2 on the unchanged tree).
+    const double rerun_timeout = 2 * case_timeout;
+    const size_t nre_total = aborted_early ? (timed_out.size() < 2 ? timed_out.size() : 2) : timed_out.size();
+    for (size_t base = 0; base < nre_total; base += 2)
     {
-        size_t nre = timed_out.size() < 2 ? timed_out.size() : 2;
+        size_t nre = nre_total - base < 2 ? nre_total - base : 2;
         struct Re
         {
             pid_t pid;
@@ -835,7 +840,7 @@ int main(int argc, char **argv)
         fflush(nullptr);
         for (size_t i = 0; i < nre; i++)
         {
-            Locate L = locate(timed_out[i].gidx);
+            Locate L = locate(timed_out[base + i].gidx);
             pid_t p = fork();
             if (p == 0)
             {
@@ -862,7 +867,7 @@ int main(int argc, char **argv)
                     r.done = true;
                     left--;
                 }
-                else if ((now_ns() - t0) / 1e9 > case_timeout)
+                else if ((now_ns() - t0) / 1e9 > rerun_timeout)
                 {
                     kill(r.pid, SIGKILL);
                     waitpid(r.pid, &r.st, 0);
@@ -882,7 +887,7 @@ int main(int argc, char **argv)
                 hangs++;
                 snprintf(key, sizeof key, "hang:%s%s%s", G.suites[r.L.suite].name, sl.cls[0] ? "@" : "", sl.cls);
                 snprintf(det, sizeof det, "case exceeded %.0fs in the pool and again %.0fs alone (%zu cases timed out in this run%s); cls=%s",
-                         case_timeout, case_timeout, timed_out.size(), aborted_early ? ", run stopped early" : "", sl.cls);
+                         case_timeout, rerun_timeout, timed_out.size(), aborted_early ? ", run stopped early" : "", sl.cls);
                 record_failure("hang", r.L.suite, r.L.local, key, det);
             }
             else if (WIFEXITED(r.st) && WEXITSTATUS(r.st) == 0)
